@@ -818,7 +818,15 @@ where
             match ch.try_recv() {
                 Ok(Hit(hash, entry, timestamp)) => {
                     freq.increment(hash);
-                    entry.set_last_accessed(timestamp);
+                    // The entry may have been updated (or read) at a later time than
+                    // this read was recorded. Never move the last accessed time back.
+                    if entry
+                        .last_accessed()
+                        .map(|la| la < timestamp)
+                        .unwrap_or(true)
+                    {
+                        entry.set_last_accessed(timestamp);
+                    }
                     if entry.is_admitted() {
                         deqs.move_to_back_ao(&entry);
                     }
